@@ -43,7 +43,7 @@ let () =
   let maxrec = if Array.length Sys.argv > 3 && not dump then int_of_string Sys.argv.(3) else 20 in
   let ic = open_in file in
   let total = ref 0 and corr_fail = ref 0 and oracle_fail = ref 0 and crash = ref 0
-  and bad = ref 0 and recorded = ref 0 in
+  and bad = ref 0 and recorded = ref 0 and rec_corr = ref 0 in
   (try
      while true do
        let line = input_line ic in
@@ -70,8 +70,12 @@ let () =
                   let o = oracle prop fam inp obs in
                   if not c then incr corr_fail;
                   if not o then incr oracle_fail;
-                  if (not c || not o) && !recorded < maxrec then begin
-                    incr recorded;
+                  (* separate quotas: failures of the correspondence alone must not crowd out
+                     the cases on which the property itself fails *)
+                  let take = if not o then (if !recorded < maxrec then (incr recorded; true) else false)
+                             else if not c then (if !rec_corr < maxrec then (incr rec_corr; true) else false)
+                             else false in
+                  if take then begin
                     Printf.fprintf fout "%s %s\nCASE %s\nEXPECTED %s\n"
                       (if o then "ORACLE_OK" else "ORACLE_FAIL")
                       (if c then "CORR_OK" else "CORR_FAIL")
